@@ -134,11 +134,24 @@ CLAIMS.update({
     ),
 })
 
+CLAIMS.update({
+    "C12": dict(
+        technique="dimensional (unit) analysis of the operator bodies by structural abstract interpretation: tensor and unit-carrying parameter as one unit, coefficients and counts as numbers",
+        text="PARTIAL claim; decides joint positive homogeneity only. (PROX-HOMOGENEOUS) in soft / singular-value thresholding, the l2 and squared-l2 prox, smoothness, simplex and l1-ball projection, hard and normalised sparsity, monotone (both directions) and unimodal regression and Procrustes, no sum, difference or element store combines quantities of different units and the result has the unit of the input (no unit for the normalising operators). Every penalty offered is positively homogeneous or a squared norm with a dimensionless coefficient, so the exact prox satisfies prox(c v; c r) = c prox(v; r); an operator that is not jointly homogeneous cannot be the exact minimiser for every input and parameter. NOT decided: feasibility, optimality, idempotence, non-expansiveness, behaviour on negative inputs or inside the constraint set.",
+        note="Trusted: unit table of the parameters (thresholds and radii carry the data's unit; l2-square and smoothness coefficients dimensionless; sparsity levels are counts), confirmed against the documented prox problems; guards x + 1e-12 / x + eps are negligible by intent.",
+        design="DESIGN.md §20 (C12)",
+    ),
+    "C20": dict(
+        technique="dimensional analysis of the metric bodies by structural abstract interpretation: the two factor sets / data arrays as independent units",
+        text="PARTIAL claim; decides the scale behaviour only. (SCALE-BEHAVIOUR) congruence_coefficient (with and without absolute values), correlation_index (all four methods), R2_score, correlation, reflective_correlation_coefficient and leverage_score_dist are homogeneous of degree 0 in each argument -- a necessary condition of their invariance under rescaling of either factor set; MSE / variance have degree 2, covariance degree (1, 1), RMSE / standard deviation degree 1, as their definitions require; no sum or difference inside them combines different units. NOT decided: optimality of the matching over all permutations, the [0, 1] range, permutation invariance, the exact definitions.",
+        note="Trusted: one scale per factor matrix stands for per-column scales (the metrics normalise with axis=0 norms); svd degree specification for the leverage scores.",
+        design="DESIGN.md §21 (C20)",
+    ),
+})
+
 NA = {
     "C05": "Singular values, orthonormality and optimal truncation error are numerical facts about LAPACK results; no sound static argument bounds them.",
     "C09": "Error bounds in terms of the data's singular spectrum are purely numerical.",
-    "C12": "Exact minimisers of prox problems are purely numerical (the sign-level defect of the non-negativity handler is decided under C10/C11).",
-    "C20": "Optimal assignment over all R! matchings and metric values are purely numerical.",
 }
 
 PENDING = {
